@@ -1423,3 +1423,40 @@ Proof.
   destruct (utf8_step_count _ _ E ltac:(lia)) as (_ & _ & C). rewrite C, Nat2Z.id, skipn_app_exact.
   unfold utf8_encode in IH. rewrite (IH Hcs). cbn [length]. lia.
 Qed.
+
+(* =========================================================== the runner's checker for spans/deltas is sound *)
+Lemma find_int_some_in k v (l : imap) : find_int k l = Some v -> In (k, v) l.
+Proof.
+  induction l as [|[a w] r IH]; cbn [find_int]; [discriminate|].
+  destruct (Z.eqb_spec a k); [intros H; inversion H; subst; left; reflexivity|intros H; right; apply IH; exact H].
+Qed.
+
+Lemma find_int_none k (l : imap) : find_int k l = None -> ~ In k (map fst l).
+Proof.
+  induction l as [|[a w] r IH]; cbn [find_int map fst In]; [tauto|].
+  destruct (Z.eqb_spec a k); [discriminate|]. intros H [E|Hin]; [contradiction|]. apply (IH H Hin).
+Qed.
+
+Lemma increasing_b_sorted l : increasing_b l = true -> Sorted Z.lt l.
+Proof.
+  induction l as [|a r IH]; [constructor|]. destruct r as [|b r'].
+  - intros _. constructor; constructor.
+  - cbn [increasing_b]. intros H. apply andb_true_iff in H. destruct H as [H1 H2].
+    constructor; [apply IH; exact H2|]. constructor. apply Z.ltb_lt. exact H1.
+Qed.
+
+Lemma pops_spec_sound_lemma (given : imap) spans deltas :
+  pops_spec given spans deltas = true -> decodes_to given spans deltas.
+Proof.
+  unfold pops_spec, decodes_to. cbv zeta. set (dec := decode_spans spans deltas).
+  intros H. repeat (apply andb_true_iff in H; destruct H as [H ?]).
+  rename H0 into Hdec, H1 into Hgiven, H2 into Hinc.
+  rewrite forallb_forall in Hdec, Hgiven. repeat split.
+  - intros k v Hin. specialize (Hgiven (k, v) Hin). cbn [fst snd] in Hgiven.
+    destruct (find_int k dec) as [w|] eqn:E; [|discriminate]. apply Z.eqb_eq in Hgiven. subst. apply find_int_some_in. exact E.
+  - intros k v Hin. specialize (Hdec (k, v) Hin). cbn [fst snd] in Hdec.
+    destruct (find_int k given) as [w|] eqn:E.
+    + apply Z.eqb_eq in Hdec. subst. left. apply find_int_some_in. exact E.
+    + apply Z.eqb_eq in Hdec. right. split; [exact Hdec|apply find_int_none; exact E].
+  - apply increasing_b_sorted. exact Hinc.
+Qed.
